@@ -151,4 +151,91 @@ theorem import_listed_is_exactly_listed (decls : List Decl) (names vis : List St
 
 example : initSeq (fun m => if m = 3 then [1, 2] else if m = 2 then [1] else []) 10 [3, 2] = [1, 2, 3] := by simp [initSeq, visitAll, visit]
 
+/-! ### directory imports -/
+
+mutual
+/-- a recursive directory import brings in every module file below the directory … -/
+theorem walk_recursive_all : ∀ (es : List DirEntry), walkSorted true es = allModules es
+  | [] => rfl
+  | e :: r => by simp only [walkSorted, allModules, walkEntry_recursive_all e, walk_recursive_all r]
+theorem walkEntry_recursive_all : ∀ (e : DirEntry), walkEntry true e = modulesOf e
+  | .file _ _ => rfl
+  | .dir _ es => by simp only [walkEntry, modulesOf, if_true, walk_recursive_all es]
+end
+
+/-- … a plain one exactly the module files directly in it (nothing of its sub-directories) -/
+theorem walk_plain_top : ∀ (es : List DirEntry), walkSorted false es = topModules es
+  | [] => rfl
+  | .file _ m :: r => by simp [walkSorted, walkEntry, topModules, walk_plain_top r]
+  | .dir _ _ :: r => by simp [walkSorted, walkEntry, topModules, walk_plain_top r]
+
+theorem allModules_insert (e : DirEntry) : ∀ (l : List DirEntry), (allModules (insertEntry e l)).Perm (modulesOf e ++ allModules l)
+  | [] => by simp [insertEntry, allModules]
+  | f :: r => by
+    simp only [insertEntry]
+    split
+    · simp [allModules]
+    · simp only [allModules]
+      have ih := allModules_insert e r
+      -- modulesOf f ++ allModules (insertEntry e r) ~ modulesOf e ++ (modulesOf f ++ allModules r)
+      refine (List.Perm.append_left _ ih).trans ?_
+      rw [← List.append_assoc, ← List.append_assoc]
+      exact List.Perm.append_right _ List.perm_append_comm
+
+theorem topModules_insert (e : DirEntry) : ∀ (l : List DirEntry), (topModules (insertEntry e l)).Perm (topModules [e] ++ topModules l)
+  | [] => by cases e <;> simp [insertEntry, topModules]
+  | f :: r => by
+    simp only [insertEntry]
+    split
+    · cases e <;> simp [topModules]
+    · have ih := topModules_insert e r
+      cases f with
+      | file n m =>
+        cases e with
+        | file n' m' =>
+          simp only [topModules, List.cons_append, List.nil_append] at ih ⊢
+          exact (List.Perm.cons m ih).trans (List.Perm.swap _ _ _)
+        | dir n' es' =>
+          simp only [topModules, List.nil_append] at ih ⊢
+          exact List.Perm.cons m ih
+      | dir n es =>
+        simp only [topModules] at ih ⊢
+        exact ih
+
+mutual
+/-- sorting the listings neither loses nor duplicates a module -/
+theorem allModules_sortDeep : ∀ (es : List DirEntry), (allModules (sortDeep es)).Perm (allModules es)
+  | [] => by simp [sortDeep]
+  | e :: r => by
+    simp only [sortDeep, allModules]
+    exact (allModules_insert _ _).trans (List.Perm.append (modulesOf_sortEntryDeep e) (allModules_sortDeep r))
+theorem modulesOf_sortEntryDeep : ∀ (e : DirEntry), (modulesOf (sortEntryDeep e)).Perm (modulesOf e)
+  | .file _ _ => by simp [sortEntryDeep]
+  | .dir _ es => by simp only [sortEntryDeep, modulesOf]; exact allModules_sortDeep es
+end
+
+theorem topModules_sortEntryDeep (e : DirEntry) : topModules [sortEntryDeep e] = topModules [e] := by
+  cases e <;> simp [sortEntryDeep, topModules]
+
+theorem topModules_sortDeep : ∀ (es : List DirEntry), (topModules (sortDeep es)).Perm (topModules es)
+  | [] => by simp [sortDeep]
+  | e :: r => by
+    simp only [sortDeep]
+    refine (topModules_insert _ _).trans ?_
+    rw [topModules_sortEntryDeep]
+    have ih := topModules_sortDeep r
+    cases e <;> simp [topModules] <;> exact ih
+
+/-- **A recursive directory import brings in every module below the directory exactly as often
+as it is there**, whatever order the file system lists the entries in. -/
+theorem dirImport_recursive_complete (es : List DirEntry) : (dirImport true es).Perm (allModules es) := by
+  unfold dirImport; rw [walk_recursive_all]; exact allModules_sortDeep es
+
+/-- **A plain directory import brings in exactly the module files of the directory itself.** -/
+theorem dirImport_plain_complete (es : List DirEntry) : (dirImport false es).Perm (topModules es) := by
+  unfold dirImport; rw [walk_plain_top]; exact topModules_sortDeep es
+
+example : dirImport true [.file "m4.ddp" 4, .dir "tief" [.file "m9.ddp" 9, .file "m1.ddp" 1], .file "m2.ddp" 2] = [2, 4, 1, 9] := by decide
+example : dirImport false [.file "m4.ddp" 4, .dir "tief" [.file "m9.ddp" 9, .file "m1.ddp" 1], .file "m2.ddp" 2] = [2, 4] := by decide
+
 end DDP.Modules
